@@ -19,7 +19,7 @@ ROOT = astdump.ROOT
 REPO = astdump.REPO
 BIN = os.path.join(astdump.BUILD, 'replay')
 
-LIBS = ['lib/libllbuildBuildSystem.a', 'lib/libllbuildCore.a', 'lib/libllbuildBasic.a', 'lib/libllvmSupport.a', 'lib/libLLVMDemangle.a']
+LIBS = ['lib/libllbuildBuildSystem.a', 'lib/libllbuildNinja.a', 'lib/libllbuildCore.a', 'lib/libllbuildBasic.a', 'lib/libllvmSupport.a', 'lib/libLLVMDemangle.a']
 
 
 def build_driver(unit, extra_libs=()):
@@ -33,7 +33,7 @@ def build_driver(unit, extra_libs=()):
         return exe, ''
     if 'lib/' not in open(src).read().split('#include "driver_common.h"')[0].replace('#include "llbuild/', ''):
         # the driver links the code under test from the repo's libraries: refresh them from the working tree first
-        subprocess.run(['ninja', '-C', os.path.join(REPO, '_build'), 'llbuildBuildSystem', 'llbuildCore', 'llbuildBasic', 'llvmSupport'],
+        subprocess.run(['ninja', '-C', os.path.join(REPO, '_build'), 'llbuildBuildSystem', 'llbuildNinja', 'llbuildCore', 'llbuildBasic', 'llvmSupport'],
                        stdout=subprocess.PIPE, stderr=subprocess.PIPE)
     libs = [os.path.join(REPO, '_build', l) for l in LIBS if os.path.exists(os.path.join(REPO, '_build', l))]
     cmd = ['clang++-14', '-std=c++14', '-g', '-O1', '-fno-rtti', '-fno-exceptions', '-DNDEBUG', '-fsanitize=address,undefined',
